@@ -503,6 +503,41 @@ def r02_4(prog, rep):
         rep.broken_("rule=R02.4 expected the stores of both date lists in snarf_fld, found %d" % n)
 
 
+def r02_5(prog, rep, rid="R02.5"):
+    """The reader of one date (DTSTART, DTEND, UNTIL...) and the reader of a date list (RDATE, EXDATE) go through the parameters in
+    front of the value the same way: a parameter ends at the next `;` or `:`.  Both search from their parameter cursor; the sets of
+    bytes they search for must be the same and hold both delimiters — an exception given as `EXDATE;VALUE=DATE-TIME;TZID=...:` has
+    to find the zone DTSTART found, or it names another instant and excludes nothing."""
+    sets = {}
+    for name in ("snarf_dt", "snarf_dtlst"):
+        f = prog.fn(name, "evical.c")
+        cur = f.params[0]["n"]
+        found = []
+        for b, i, c, line in f.all_calls():
+            if c.get("fn") in ("strchr", "strpbrk", "memchr", "strcspn") and c.get("a") and cur in (lv(strip_casts(f.cfg.resolve(c["a"][0]))), root_var(strip_casts(f.cfg.resolve(c["a"][0])))):
+                a1 = strip_casts(f.cfg.resolve(c["a"][1]))
+                if c["fn"] in ("strchr", "memchr"):
+                    v = int_value(a1)
+                    found.append((line, c["fn"], None if v is None else frozenset(chr(v))))
+                else:
+                    txt = a1.get("v") if a1.get("k") == "str" else None
+                    found.append((line, c["fn"], None if txt is None else frozenset(txt)))
+        sets[name] = (f, found)
+    for name, (f, found) in sets.items():
+        key = "%s/parameter-end" % name
+        if not found:
+            rep.fail(rid, key, f.loc(), "%s does not search for the end of a parameter from its parameter cursor" % name)
+            continue
+        good = [x for x in found if x[2] == frozenset(":;")]
+        bad = [x for x in found if x[2] is not None and x[2] & frozenset(":;") and x[2] != frozenset(":;")] or ([] if good else found)
+        if not good:
+            rep.fail(rid, key, f.loc(bad[0][0]), "%s ends a parameter with %s(%s): a parameter ends at `;` or `:`, whichever comes first — with more than one "
+                     "parameter the TZID is cut short or swallows its neighbour, and the sibling reader (%s) finds another zone for the same text" % (
+                         name, bad[0][1], "?" if bad[0][2] is None else "".join(sorted(bad[0][2])), [n_ for n_ in sets if n_ != name][0]))
+        else:
+            rep.ok(rid, key, f.loc(good[0][0]), "a parameter ends at the next `;` or `:` (%s)" % ", ".join(sorted({x[1] for x in good})))
+
+
 def run(prog, rep, tier, snap):
     rep.rule("R02.1", "single-step decision table of next_evfilt over all order types of occurrence/exception endpoints", 8)
     rep.call(r02_1, prog, rep, tier)
@@ -510,6 +545,8 @@ def run(prog, rep, tier, snap):
     rep.call(r02_2, prog, rep)
     rep.rule("R02.4", "repeated RDATE/EXDATE lines accumulate", 2)
     rep.call(r02_4, prog, rep)
+    rep.rule("R02.5", "the date reader and the date-list reader end a parameter at the same delimiters (`;` and `:`)", 2)
+    rep.call(r02_5, prog, rep)
     rep.rule("R02.3", "exceptions are consumed outside the step function only for priming or strictly before the occurrence", 1)
     rep.call(r02_3, prog, rep)
     from . import c03
@@ -522,3 +559,4 @@ READY = True
 # texts brought up to date with the rules added in the last rounds
 LEVEL_TEXT = LEVEL_TEXT + ' The decision table treats a candidate that is peeked anew as any event: delivering it without comparing it with the pending exception is a row of its own.'
 
+LEVEL_TEXT = LEVEL_TEXT + " The reader of one date and the reader of a date list end a parameter at the same delimiters (`;` and `:`)."
